@@ -150,6 +150,32 @@ AllWebsFire(g) == {FiringToWeb(g, F) : F \in FiringSets(g)}
 AllWebsDecl(g) == {w \in [WEdges(g) -> Paulis] : ValidWeb(g, w)}
 Dim(g) == WLog2(Cardinality(AllWebsFire(g)))
 
+\* ---------- the public read / write API around a web (audit #23) ----------
+\* A web is a function on UNORDERED pairs.  PauliWeb keeps it in a map keyed by ordered pairs; `store` is that map
+\* as logged (key <<u, v>> -> Pauli).  `answers` is the set of <<u, v, p>> with edge(u, v) = Some(p), the harness
+\* having asked EVERY ordered pair of 0..upto.  The read API is order-insensitive and agrees with the stored map:
+\* both orders of every stored pair answer its Pauli, nothing else answers.
+WStoreOf(lst) == [k \in {<<lst[j][1], lst[j][2]>> : j \in 1..Len(lst)} |->
+                   lst[CHOOSE j \in 1..Len(lst) : <<lst[j][1], lst[j][2]>> = k][3]]
+WAnswers(lk) == {<<lk[j][1], lk[j][2], lk[j][3]>> : j \in 1..Len(lk)}
+LookupOK(store, answers, upto) ==
+  /\ \A k \in DOMAIN store : k[1] \in 0..upto /\ k[2] \in 0..upto
+  /\ answers = UNION {{<<k[1], k[2], store[k]>>, <<k[2], k[1], store[k]>>} : k \in DOMAIN store}
+\* set_edge(from, to, p) called in sequence `ops`: the function on unordered pairs they define (the last Pauli set
+\* for a pair wins), as the set of answers of an order-insensitive reader
+WSetEdgeAnswers(ops) ==
+  LET pairs == {{ops[i][1], ops[i][2]} : i \in 1..Len(ops)}
+      last(pr) == ops[CHOOSE i \in 1..Len(ops) : {ops[i][1], ops[i][2]} = pr
+                                               /\ \A j \in (i + 1)..Len(ops) : {ops[j][1], ops[j][2]} # pr][3]
+  IN UNION {{<<u, v, last(pr)>> : u, v \in pr} \ (IF Cardinality(pr) = 2 THEN {<<u, u, last(pr)>> : u \in pr} ELSE {}) : pr \in pairs}
+\* adjacency_matrix(nodelist): entry (i, j) is 1 iff the i-th and the j-th listed vertex are joined by an edge
+AdjOK(g, order, rows) ==
+  /\ Len(rows) = Len(order)
+  /\ \A i \in 1..Len(rows) : Len(rows[i]) = Len(order)
+  /\ \A i, j \in 1..Len(order) : (rows[i][j] = 1) = (order[i] # order[j] /\ Edge(order[i], order[j]) \in WEdges(g))
+\* adjacency_matrix(None): "all vertices in the graph", each once
+IsVertexList(g, order) == ToSet(order) = g.vs /\ Len(order) = Cardinality(g.vs)
+
 \* ---------- semantic grounding: a web as Pauli spiders on the wires ----------
 \* X = X spider with phase pi, Z = Z spider with phase pi, Y = both (= XZ up to a unit)
 WSubdiv(g, e, p) ==
